@@ -11,7 +11,7 @@ use crate::{
 
 use super::{
     expect_token,
-    expr::{parse_closure_expr, parse_expr},
+    expr::{parse_expr, parse_func_body},
     if_token_bump, parse_block,
 };
 
@@ -514,7 +514,7 @@ fn parse_function(p: &mut LuaParser) -> ParseResult {
     let m = p.mark(LuaSyntaxKind::FuncStat);
     p.bump();
     parse_func_name(p)?;
-    parse_closure_expr(p)?;
+    parse_func_body(p)?;
     if_token_bump(p, LuaTokenKind::TkSemicolon);
     Ok(m.complete(p))
 }
@@ -592,7 +592,7 @@ fn parse_local(p: &mut LuaParser) -> ParseResult {
                 }
             }
 
-            match parse_closure_expr(p) {
+            match parse_func_body(p) {
                 Ok(_) => {}
                 Err(_) => {
                     p.push_error(LuaParseError::syntax_error_from(
@@ -679,7 +679,7 @@ fn try_parse_const(p: &mut LuaParser) -> ParseResult {
                     ));
                 }
             }
-            match parse_closure_expr(p) {
+            match parse_func_body(p) {
                 Ok(_) => {}
                 Err(_) => {
                     p.push_error(LuaParseError::syntax_error_from(
@@ -896,7 +896,7 @@ fn try_parse_global_stat(p: &mut LuaParser) -> ParseResult {
                 }
             }
             m2.complete(p);
-            parse_closure_expr(p)?;
+            parse_func_body(p)?;
         }
         // global *
         LuaTokenKind::TkMul => {
